@@ -235,6 +235,34 @@ def check_spec(run, cases, ia, ma, sp, kinds=("goto", "resolve")):
 
 
 
+def check_imported(run, cases, ia, ma, sp):
+    """`imported p` must be the names p provides through its import edges (closure over star imports and
+    pytest_plugins, cycles included) — compared where no explicit import is involved (those are judged by name only:
+    the recorded E1 findings)"""
+    v = run.verdict
+    n = 0
+    for k, s in sp.items():
+        q = cases.queries[k]
+        if q[1] != "imported":
+            continue
+        a = ia.get(k)
+        if a is None or a.startswith("PANIC"):
+            continue
+        want, flags = split_spec(s)
+        if flags & {"explicit-import", "alias", "unparsable-conftest"}:
+            continue
+        n += 1
+        got = sorted(parse_list(a))
+        if got == sorted(want):
+            continue
+        msg = (f"{' '.join(q)} in case {k[0]}: the implementation says {q[2]} provides {got} through its imports; following its "
+               f"star imports and pytest_plugins (cycles included) it provides {sorted(want)} (model answers {ma.get(k)}; "
+               f"failed hypotheses: {sorted(flags) or 'none'})")
+        v.violation(f"{k[0]}-{k[1]}-imported", msg, f"# {msg}\n# failing query is #{k[1]}\n" + cases.replay_text(k[0]),
+                    weak=not core.agree(a, ma.get(k, "")))
+    run.stats["imported_sets_compared_with_closure"] = run.stats.get("imported_sets_compared_with_closure", 0) + n
+
+
 def corpus_cases(cases, prop):
     """minimised past failures and the witnesses of known findings run first"""
     import glob, os
